@@ -13,6 +13,10 @@ import (
 
 // InitGenesis initializes the bank module's state from a given genesis state.
 func (k BaseKeeper) InitGenesis(ctx sdk.Context, genState *types.GenesisState) {
+	if err := genState.Validate(); err != nil {
+		panic(fmt.Errorf("invalid ucdao genesis: %w", err))
+	}
+
 	if err := k.SetParams(ctx, genState.Params); err != nil {
 		panic(err)
 	}
